@@ -793,7 +793,14 @@ class ExecutorBase:
         # `await f(...)`: coroutine functions are followed like ordinary calls (interleavings at awaits are handled by the
         # contract's on_yield hook where a property needs them)
         h = getattr(fr.contract, "on_yield", None) if fr.contract is not None else None
-        v = self.ev(node.value, fr)
+        try:
+            v = self.ev(node.value, fr)
+        except PyRaise:
+            # the awaited coroutine raised: the suspension happened all the same, other coroutines may have run before the handler
+            if h is not None:
+                from .api import Ctx
+                h(Ctx(self, fr, "await (raised) " + ast.unparse(node.value)[:60], node))
+            raise
         if h is not None:
             from .api import Ctx
             h(Ctx(self, fr, "await " + ast.unparse(node.value)[:60], node))
